@@ -337,6 +337,13 @@ func (i *interpreter) mathBinop(fr *frame, op token.Token, tx, ty *sym.Term, kx,
 	case token.GEQ:
 		return i.mkval(c.Le(ty, tx), types.Bool)
 	case token.AND:
+		// x & 2^b with x >= 0
+		if ty.IsConst() && tx.Lo >= 0 {
+			if m := ty.Int64(); m > 0 && m&(m-1) == 0 && m != 1 {
+				set := c.Eq(c.IModFloor(c.IDivFloor(tx, c.Int(m)), c.Int(2)), c.Int(1))
+				return i.mkval(c.Ite(set, c.Int(m), c.Int(0)), kx)
+			}
+		}
 		// x & (2^k-1) with x >= 0
 		if ty.IsConst() && tx.Lo >= 0 {
 			m := ty.Int64()
@@ -349,6 +356,32 @@ func (i *interpreter) mathBinop(fr *frame, op token.Token, tx, ty *sym.Term, kx,
 			if m >= 0 && m&(m+1) == 0 {
 				return i.mkval(c.IModFloor(ty, c.Int(m+1)), kx)
 			}
+		}
+	case token.OR, token.AND_NOT, token.XOR:
+		// single-bit constant on a non-negative operand: bit b of x is (x div 2^b) mod 2
+		var x *sym.Term
+		var m int64 = -1
+		if ty.IsConst() && tx.Lo >= 0 {
+			x, m = tx, ty.Int64()
+		} else if tx.IsConst() && ty.Lo >= 0 && op != token.AND_NOT {
+			x, m = ty, tx.Int64()
+		}
+		if x != nil && m > 0 && m&(m-1) == 0 {
+			set := c.Eq(c.IModFloor(c.IDivFloor(x, c.Int(m)), c.Int(2)), c.Int(1))
+			var r *sym.Term
+			switch op {
+			case token.OR:
+				r = c.Ite(set, x, c.Add(x, c.Int(m)))
+			case token.AND_NOT:
+				r = c.Ite(set, c.Sub(x, c.Int(m)), x)
+			default:
+				r = c.Ite(set, c.Sub(x, c.Int(m)), c.Add(x, c.Int(m)))
+			}
+			i.mathRange(fr, r, kx, "bit-op")
+			return i.mkval(r, kx)
+		}
+		if m == 0 {
+			return i.mkval(x, kx)
 		}
 	case token.SHL:
 		if ty.IsConst() && ty.Int64() >= 0 && ty.Int64() < 62 {
